@@ -29,13 +29,17 @@ class FnResult:
         self.describe = None
         self.exits = {"return": 0, "raise": 0, "loop-iteration": 0}
         self.witnesses = []       # refuted obligations with concrete input description
+        self.callsites = {}
+        self.abort_reasons = {}
 
     def to_json(self):
         return {"key": self.key, "paths": self.paths, "paths_infeasible": self.paths_infeasible,
                 "paths_completed": self.paths_completed, "exits": self.exits,
                 "unsupported": self.unsupported, "spec_errors": self.spec_errors, "crashes": self.crashes,
                 "notes": self.notes, "secs": round(self.secs, 3), "solver_secs": round(self.solver_secs, 3),
-                "describe": self.describe,
+                "describe": self.describe, "abort_reasons": self.abort_reasons,
+                "callsites": [{"callee": k[0], "line": k[1], "reached": v[0], "returns": v[1]}
+                              for k, v in sorted(self.callsites.items(), key=str)],
                 "obligations": [o.to_json() for o in self.obligations]}
 
 
@@ -228,6 +232,7 @@ def run_path(cset, fc, prefix, res, opts):
             res.paths_completed += 1
         else:
             res.paths_infeasible += 1
+            res.abort_reasons[e.why] = res.abort_reasons.get(e.why, 0) + 1
     except Unsupported as e:
         msg = str(e)
         if msg not in res.unsupported:
@@ -254,6 +259,10 @@ def run_path(cset, fc, prefix, res, opts):
                     ob.info["replay_error"] = "%s: %s" % (type(e).__name__, e)
         ob.zmodel = None
         res.obligations.append(ob)
+    for k, v in I.callsites.items():
+        a = res.callsites.setdefault(k, [0, 0])
+        a[0] += v[0]
+        a[1] += v[1]
     for n in I.notes + ctx.notes:
         if n not in res.notes:
             res.notes.append(n)
